@@ -150,6 +150,19 @@ CHECKS = {
         "exhaustive operation sequences to a bound + Hypothesis histories against a model (the simulated table); invariants after every step",
         "DESIGN.md 4/C15",
     ),
+    "C19": (
+        "fault_enumeration",
+        "Every keep-alive outcome sequence of length 8 (thorough 10) over {ok, timeout, EZSP error} for protocol version 4 "
+        "and of length 6 (thorough 8) over the 5 outcomes of later versions (failure on the counter read or on the "
+        "free-buffer read) for versions 8 and 13, judged feed by feed against a two-counter model: a feed raises exactly when "
+        "it is a failure and at least the 5th consecutive one, any success clears the run; plus Hypothesis sequences of up to "
+        "400 feeds crossing the 180-feed read-and-clear period (and with the period patched to 3 and 5) for versions "
+        "4/7/8/13/14. The simulator checks the commands seen per feed (nop on v4; readCounters or, on period multiples, "
+        "readAndClearCounters, followed by getValue(FREE_BUFFERS) after a successful read).",
+        "ControllerApplication built with the zigpy.util.Requests shim; feeds are driven by calling _watchdog_feed() directly.",
+        "exhaustive outcome-sequence enumeration to a length bound + Hypothesis long histories against a counter model",
+        "DESIGN.md 4/C19",
+    ),
 }
 
 NOT_YET = "check not built yet in this session (planned, see DESIGN.md section 4)"
